@@ -2775,6 +2775,26 @@ func (s *Translator) buildExpansionPatternStep(traversalStepContext TraversalSte
 			projectionConstraints,
 			selfLoopIdentityConstraint(traversalStep, expansionModel.Frame.Binding.Identifier),
 		)
+
+		// The seed applies the constraints on the carried bindings to pick the distinct roots. Rows of the previous
+		// frame that share a root but fail such a constraint on another binding, e.g. (a)-[*]->(b)-[*]->(c) WHERE
+		// a.x = b.x, must not be joined to the expansion either.
+		projectionConstraints = pgsql.OptionalAnd(projectionConstraints, expansionModel.PrimerNodeConstraints)
+
+		// A terminal node that the previous frame already carries, e.g. (a)-[:R]->(b)-[*]->(a), must be the
+		// node the expansion arrived at. The root builder applies the same gate.
+		if traversalStep.RightNodeBound && !isSelfLoopEndpoints(traversalStep) {
+			projectionConstraints = pgsql.OptionalAnd(
+				projectionConstraints,
+				boundEndpointProjectionConstraint(
+					traversalStep.Frame.Previous.Binding.Identifier,
+					traversalStep.RightNode.Identifier,
+					expansionModel.Frame.Binding.Identifier,
+					expansionNextID,
+				),
+			)
+		}
+
 		projectionConstraints = rewriteCurrentFrameProjectionReferences(
 			projectionConstraints,
 			traversalStep.Frame.Binding.Identifier,
